@@ -234,7 +234,7 @@ func main() {
 	sort.Strings(keys)
 	for _, k := range keys {
 		c := eng.cs.Funcs[k]
-		if !hasProp(c.Props, *prop) {
+		if !hasProp(c.Props, *prop) && !clauseHasProp(c, *prop) {
 			continue
 		}
 		if c.Missing {
@@ -401,4 +401,19 @@ func ssautil_AllFunctionsOf(prog *ssa.Program, sp *ssa.Package) []*ssa.Function 
 	}
 	sort.Slice(out, func(i, j int) bool { return out[i].String() < out[j].String() })
 	return out
+}
+
+// clauseHasProp: some clause of the contract carries the property tag itself (ensures[C13] ...)
+func clauseHasProp(c *Contract, prop string) bool {
+	for _, cl := range c.Ensures {
+		if hasProp(cl.Props, prop) {
+			return true
+		}
+	}
+	for _, cl := range c.Requires {
+		if hasProp(cl.Props, prop) {
+			return true
+		}
+	}
+	return false
 }
